@@ -19,5 +19,9 @@ for line in open(sys.argv[1]):
         meta['round'] = 4
     elif re.search(r'-s\d+$', name):
         meta['round'] = 5
+    elif re.search(r'-t\d+$', name):
+        meta['round'] = 6
+    elif re.search(r'-u\d+$', name):
+        meta['round'] = 7
     json.dump(meta, open(p, 'w'), indent=1, ensure_ascii=False)
     open(p, 'a').write('\n')
